@@ -61,17 +61,31 @@ func commonPrefix(paths []string) string {
 	}
 	index := 0
 	first := paths[0]
+scan:
 	for ; index < len(first); index++ {
 		c := first[index]
 		for _, other := range paths {
 			if index >= len(other) || other[index] != c {
 				// no more prefix
-				return first[:index]
+				break scan
 			}
 		}
 	}
+	prefix := first[:index]
 
-	return first
+	// the prefix must stop at a directory boundary :
+	// /a/bc and /a/bd have /a in common, not /a/b
+	for _, other := range paths {
+		if len(other) > len(prefix) && other[len(prefix)] != filepath.Separator {
+			if i := strings.LastIndexByte(prefix, filepath.Separator); i > 0 {
+				prefix = prefix[:i]
+			} else {
+				prefix = prefix[:i+1]
+			}
+			break
+		}
+	}
+	return prefix
 }
 
 // LoadSources returns for each source file, the `*packages.Package` containing it.
